@@ -183,6 +183,7 @@ def run_wsgi_seq(bname, chunks, seq):
         hdrs.append(("Content-Length", str(len(body))))
     req = drivers.Req(method=method_for(seq, chunks), headers=hdrs, chunks=chunks)
     env = drivers.to_environ(req)
+    inp = env["wsgi.input"]  # the server's input object (the application may put another one into the environ)
     r = wsgi.Request(env)
     out, objs = [], {}
     for op in seq:
@@ -220,7 +221,6 @@ def run_wsgi_seq(bname, chunks, seq):
                 out.append(("close",))
         except Exception as e:
             out.append(norm_exc(e) if op != "close" else ("close",))
-    inp = env["wsgi.input"]
     return out, objs, {"after_end": inp.reads_after_eof, "handed": inp.handed, "total": sum(map(len, chunks))}
 
 
@@ -254,7 +254,13 @@ def run_asgi_seq(bname, chunks, seq, disc):
                     out.append(("val", v))
                     objs.setdefault("body", []).append(v)
                 elif op == "stream":
-                    out.append(("val", b"".join([c async for c in r.stream()])))
+                    parts = []
+                    async for c in r.stream():
+                        parts.append(c)
+                        if (len(seq) + len(chunks)) % 2:
+                            await asyncio.sleep(0)  # a consumer that does something with each chunk (writes it somewhere) before asking for the next
+                            await asyncio.sleep(0)
+                    out.append(("val", b"".join(parts)))
                 elif op == "stream1":
                     it = r.stream()
                     await it.__anext__()
